@@ -922,6 +922,9 @@ from mlmverif.selfcheck import B, OK  # noqa: E402
 _F = 'chainables/tree_fns.py'
 _T = 'chainables/transform.py'
 VARIANTS = [
+    OK('batch-size-guard-de-morgan', 'chainables/tree_fns.py',
+       "    if self.fn_batch_size and not self.batch_size:\n      raise ValueError(\n          'fn_batch_size should be used with batch_size, got'",
+       "    if not (not self.fn_batch_size or self.batch_size):\n      raise ValueError(\n          'fn_batch_size should be used with batch_size, got'"),
     B('fn-batch-size-alone-is-repaired', 'chainables/tree_fns.py',
       "    if self.fn_batch_size and not self.batch_size:\n      raise ValueError(\n          'fn_batch_size should be used with batch_size, got'\n          f' {self.fn_batch_size=} and {self.batch_size=}.'\n      )\n",
       "    if self.fn_batch_size and not self.batch_size:\n      object.__setattr__(self, 'batch_size', self.fn_batch_size)\n", 'R-C08-21'),
